@@ -1184,6 +1184,18 @@ def register(R):
         return out
     R.retry_clauses = retry_clauses
 
+    def budget_clause(c, bound, props):
+        """C03: the retry loop runs over range(<attempt budget>): at most that many attempts / requests."""
+        loops = [e for e in c.trace if e.kind == 'loop']
+        okk = False
+        goal = B(False)
+        if loops and isinstance(loops[0].iterable, Ref):
+            h = c.new.obj(loops[0].iterable)
+            if h.kind == 'range':
+                goal = z3.And(to_int_term(h.meta['lo']) == 0, to_int_term(h.meta['hi']) == to_int_term(bound))
+        return {'attempts_bounded_by_the_configured_budget': (goal, props)}
+    R.budget_clause = budget_clause
+
     def got_outer_havoc(l):
         havoc_stream_link(l)
 
@@ -1233,13 +1245,15 @@ def register(R):
             'successful_part_reported_exactly_its_size': (
                 z3.Or(stopped_by_done, to_int_term(c.new.st.ghost['reported']) == g['len']) if g is not None else B(False), ['C09']),
         }
+        out.update(budget_clause(c, c.a_max_attempts, ['C03']))
         return out
 
     def got_raises_retries(c):
         loops = [e for e in c.trace if e.kind == 'loop']
         return {'only_after_the_attempt_budget_is_used_up': (B(
             len(loops) >= 1 and c.trace and c.trace[-1].kind == 'raise'), ['C03']),
-            'wraps_the_last_stream_error': (B('last_exception' in c.exc.attrs), ['C03'])}
+            'wraps_the_last_stream_error': (B('last_exception' in c.exc.attrs), ['C03']),
+            **budget_clause(c, c.a_max_attempts, ['C03'])}
 
     R.contract(
         f'{GOT}._main', props=['C02', 'C03', 'C09', 'C16', 'C10', 'C15'],
